@@ -427,7 +427,16 @@ struct Sim<'w> {
     scopes: Vec<(ReadScope<'w>, ScopeM)>,
     ctxts: Vec<(ReadCtxt<'w>, CtxtM)>,
     arrs: Vec<(Arr<'w>, ArrM)>,
-    bufs: Vec<Box<ReadBuf<'w>>>,
+    bufs: Vec<*mut ReadBuf<'w>>,
+}
+
+impl<'w> Drop for Sim<'w> {
+    fn drop(&mut self) {
+        for p in self.bufs.drain(..) {
+            // SAFETY (harness only): every pointer came from Box::into_raw and is freed once.
+            unsafe { drop(Box::from_raw(p)) };
+        }
+    }
 }
 
 fn ptr_off(w: &[u8], d: &[u8]) -> isize {
@@ -614,10 +623,11 @@ fn step<'w>(sim: &mut Sim<'w>, op: &ROp, cov: &mut BTreeSet<String>) -> Result<S
                 }
                 Ok("readbuf-owned".into())
             } else {
-                let b: Box<ReadBuf<'w>> = Box::new(ReadBuf::from(w));
-                // SAFETY (harness only): the box is kept in sim.bufs until sim is dropped.
-                let r: &'w ReadBuf<'w> = unsafe { &*(&*b as *const ReadBuf<'w>) };
-                sim.bufs.push(b);
+                let raw: *mut ReadBuf<'w> = Box::into_raw(Box::new(ReadBuf::from(w)));
+                // SAFETY (harness only): the allocation is freed only when sim is dropped
+                // (raw pointer kept in sim.bufs), after every scope derived from it.
+                let r: &'w ReadBuf<'w> = unsafe { &*raw };
+                sim.bufs.push(raw);
                 let s = r.scope();
                 let m = ScopeM {
                     start: 0,
